@@ -453,7 +453,13 @@ func (f *CallForm) TransitionNP(process *Process, re *RuntimeEnvironment) {
 			// Since the function that uses an explicit provider is called using explicit self,
 			// e.g. f(self, x1, x2) or f(w, x1, x2) where w has IsSelf true,
 			// then w has to be replaced by the new provider
-			functionCallBody.Substitute(functionCall.ExplicitProvider, f.parameters[0])
+			provider := f.parameters[0]
+			if provider.IsSelf {
+				// 'self' needs no identifier: the caller's name for its provider must not leak
+				// into the callee, where a binder with the same identifier would capture it
+				provider = NewSelf("")
+			}
+			functionCallBody.Substitute(functionCall.ExplicitProvider, provider)
 
 			for i := 1; i < len(f.parameters); i++ {
 				functionCallBody.Substitute(functionCall.Parameters[i-1], f.parameters[i])
